@@ -61,6 +61,8 @@ type c17Scenario struct {
 	// back by another process (gts extract ... | gts <cmd> -F fasta); the
 	// FASTA description must still be that of the record that was written.
 	ViaGenBank bool `json:"via_genbank,omitempty"`
+	// Squeeze: blank lines are taken out of the stream before it is read.
+	Squeeze bool `json:"squeeze,omitempty"`
 }
 
 var printable = func() string {
@@ -238,6 +240,7 @@ func genC17(r *core.RNG, tier string) *c17Scenario {
 		sc.OutName = fastaNames[r.Intn(len(fastaNames))]
 	}
 	sc.SharedBuffer = r.Chance(1, 5)
+	sc.Squeeze = r.Chance(1, 6)
 	if r.Chance(1, 30) {
 		// a record whose laid-out body (residues plus line ends) is exactly, or one
 		// off, a multiple of a buffer size somewhere below: 4 KiB, 32 KiB, 64 KiB
@@ -484,6 +487,12 @@ func (x *c17Run) exec() {
 	}
 	if len(wants) == 0 {
 		return
+	}
+	if sc.Squeeze && sc.Align == 0 {
+		// the layout other tools write: no blank line behind the header of an
+		// entry without residues - the next header follows at once
+		stream = bytes.ReplaceAll(stream, []byte("\n\n"), []byte("\n"))
+		res.Probes["streams_without_blank_lines"]++
 	}
 	le := "lf"
 	if sc.CRLF {
